@@ -346,7 +346,7 @@ def legaliser_globals_and_mutable_defaults(replay=None):
 
 # ---- differential leg: fresh interpreter alone vs after random histories ---------------------------------------------------------
 
-PROBES = ["load", "die", "refine", "stog", "sat", "legal"]
+PROBES = ["load", "die", "refine", "stog", "sat", "legal", "allocdoc"]
 
 
 def _run_probe(name, hist, scale=1.0):
@@ -358,7 +358,7 @@ def _run_probe(name, hist, scale=1.0):
 
 
 @contract(P, kind="enum", functions=["(whole library: load, decompose, refine, recognise, encode, build the legaliser model)"],
-          scope="bounded: 6 probed operations x 5 (quick) / 40 (thorough) random histories, each in a fresh interpreter",
+          scope="bounded: 7 probed operations x 5 (quick) / 40 (thorough) random histories, each in a fresh interpreter",
           params=[dict(probe=p) for p in PROBES])
 def fresh_process_vs_after_history(probe, replay=None):
     return _differential(probe, replay)
